@@ -435,7 +435,7 @@ func (tr *gtTr) generalRange(x *ast.RangeStmt, env *venv, next cont) gnode {
 		gtFail("range over a %s is outside the subset", list.typ.name)
 	}
 	et := elemType(list.typ)
-	if !et.supported() {
+	if !et.storable() {
 		gtFail("loop over elements of type %s", et.name)
 	}
 	if et.usesValue() {
